@@ -293,7 +293,7 @@ def thread_jumps(body, adts, max_rounds=6, max_new=400):
             cur = X['t']['t']
             env = dict(known)
             found = None
-            for _step in range(8):
+            for _step in range(14):
                 Cb = blocks[cur]
                 # statements of the straight-line block: track copies, forget redefinitions
                 disc = {}
@@ -322,10 +322,26 @@ def thread_jumps(body, adts, max_rounds=6, max_new=400):
                         tgt = dict((cv, cb) for cv, cb in t['cases']).get(v, t['else'])
                         found = (cur, tgt)
                     break
-                if t.get('k') in ('goto', 'falseedge') and cur != xi and cur not in path:
+                if t.get('k') in ('goto', 'falseedge', 'drop') and isinstance(t.get('t'), int) and cur != xi and cur not in path:
                     path.append(cur)
                     cur = t['t']
                     continue
+                # `x?` on a value known to be Ok/Some (or Err/None): Try::branch answers Continue (or Break)
+                if t.get('k') == 'call' and str((t.get('f') or {}).get('fn', '')).endswith('Try::branch') and t.get('args') and isinstance(t.get('t'), int) \
+                        and not t['dst'].get('p') and cur != xi and cur not in path:
+                    a0 = t['args'][0]
+                    aty = (t.get('aty') or [''])[0]
+                    if a0.get('k') in ('cp', 'mv') and not a0['pl'].get('p') and a0['pl']['l'] in env and env[a0['pl']['l']][0] == 'variant':
+                        v_ = env[a0['pl']['l']][1]
+                        if aty.startswith('core::result::Result<'):
+                            env[t['dst']['l']] = ('variant', 0 if v_ == 0 else 1)
+                        elif aty.startswith('core::option::Option<'):
+                            env[t['dst']['l']] = ('variant', 0 if v_ == 1 else 1)
+                        else:
+                            break
+                        path.append(cur)
+                        cur = t['t']
+                        continue
                 break
             if not found or added > max_new:
                 continue
